@@ -42,14 +42,28 @@ func runC19(r *Run) {
 	acq := map[string]int{}       // tasks between "Lock returned true" and "Unlock called"
 	unlocking := map[string]int{} // tasks inside Unlock
 	inCrit := 0
-	type ctxInfo struct {
-		ctx    context.Context
-		cancel context.CancelFunc
-	}
-	ctxs := make([]ctxInfo, nCancel)
+	// A cancellable context is itself a seam: the code under test asks it (Err) at points of its
+	// own choosing, and the cancellation may become visible exactly there. Per context the cancel
+	// is either a separate task (lands at a scheduling point) or fires inside one of the Err calls
+	// (drawn on the fault stream), which reaches windows without a scheduling point in them.
+	ctxs := make([]*simCtx, nCancel)
+	fs := r.T.S("fault")
 	for i := range ctxs {
 		c, cancel := context.WithCancel(context.Background())
-		ctxs[i] = ctxInfo{c, cancel}
+		ctxs[i] = &simCtx{Context: c, cancel: cancel}
+		if cfg.Intn(3) == 2 {
+			i := i
+			ctxs[i].atErr = func() bool {
+				if fs.Intn(6) != 5 {
+					return false
+				}
+				r.Fault("ctx_cancel_at_err")
+				r.Probe("c19.cancel_inside_err_call")
+				r.nontrivial = true
+				s.mix(fmt.Sprintf("cancel%d@err;", i))
+				return true
+			}
+		}
 	}
 	waitingOn := map[int]string{} // task id -> key it is inside Lock for
 	waitingCtx := map[int]int{}   // task id -> context index it waits with
@@ -78,10 +92,14 @@ func runC19(r *Run) {
 				ci := ps.Intn(nCancel + 1)
 				useRun := ps.Intn(2) == 1
 				bad := ps.Intn(4) == 3
-				ctx := context.Background()
+				var ctx context.Context = context.Background()
+				ctxDone := func() bool { return false }
 				if ci > 0 {
-					ctx = ctxs[ci-1].ctx
+					ctx = ctxs[ci-1]
+					ctxDone = ctxs[ci-1].done
 				}
+				bad2 := ps.Intn(4) == 3
+				bad2Key := keys[ps.Intn(nKeys)]
 				body := func() {
 					acq[key]++
 					inCrit++
@@ -119,7 +137,7 @@ func runC19(r *Run) {
 						if err == nil {
 							r.Fail("run-no-callback", "", "Run returned nil without running the callback")
 						}
-						if ctx.Err() == nil {
+						if !ctxDone() {
 							r.Fail("false-without-cancel", "", "Run gave up on key %s although its context is not done", key)
 						}
 					}
@@ -132,7 +150,7 @@ func runC19(r *Run) {
 						unlocking[key]--
 					} else {
 						r.Probe("c19.lock_false")
-						if ctx.Err() == nil {
+						if !ctxDone() {
 							r.Fail("false-without-cancel", "", "Lock returned false on key %s although its context is not done", key)
 						}
 					}
@@ -157,6 +175,34 @@ func runC19(r *Run) {
 						r.Fail("bad-unlock-no-panic", "", "Unlock of a key nobody holds returned normally")
 					}
 				}
+				if bad2 && badUnlock && acq[bad2Key]+unlocking[bad2Key] == 0 {
+					// Unlock of a real key that nobody holds right now (others may be anywhere
+					// inside Lock short of the acquisition, or giving up): must panic and must
+					// leave the map usable. Run without preemption so that "not held" stays true.
+					panicked := false
+					s.Atomic(func() {
+						defer func() {
+							if x := recover(); x != nil {
+								if _, ab := x.(abortRun); ab {
+									panic(x)
+								}
+								panicked = true
+							}
+						}()
+						lm.Unlock(bad2Key)
+					})
+					s.mix("badunlock:" + bad2Key + ";")
+					if panicked {
+						r.Probe("c19.bad_unlock_real_key_panicked")
+						for id, k := range waitingOn {
+							if k == bad2Key && id != s.CurID() {
+								r.Probe("c19.bad_unlock_while_other_in_lock")
+							}
+						}
+					} else {
+						r.Fail("bad-unlock-no-panic", "", "Unlock of key %s, which no caller holds, returned normally", bad2Key)
+					}
+				}
 				if r.Failed() {
 					return
 				}
@@ -168,6 +214,9 @@ func runC19(r *Run) {
 	}
 	for i := 0; i < nCancel; i++ {
 		i := i
+		if ctxs[i].atErr != nil {
+			continue
+		}
 		s.Go(fmt.Sprintf("cancel%d", i), func() {
 			// the cancel lands wherever the scheduler runs this task
 			hit := false
@@ -200,3 +249,19 @@ func runC19(r *Run) {
 		r.Fail("harness", "", "inCrit=%d", inCrit)
 	}
 }
+
+// simCtx is a cancellable context whose cancellation can become visible inside an Err call.
+type simCtx struct {
+	context.Context
+	cancel context.CancelFunc
+	atErr  func() bool // nil: cancelled by a separate task
+}
+
+func (c *simCtx) Err() error {
+	if c.atErr != nil && c.Context.Err() == nil && c.atErr() {
+		c.cancel()
+	}
+	return c.Context.Err()
+}
+
+func (c *simCtx) done() bool { return c.Context.Err() != nil }
